@@ -602,11 +602,12 @@ def type_programs(tier):
     P = []
     # flat mode is cheap: the option kinds share one obligation; pretty mode: one obligation per kind (they isolate finding 2)
     if tier == "thorough":
-        cfg = [("flat", False, "allkinds"), ("pretty", True, "default")] + PRETTY_OPT_QUICK
-        cfg_po = [("flat", False, "allkinds")] + [c for c in all_cfg() if c[1]]
+        cfg = [("flat", False, "allkinds"), ("pretty", True, "default")]
+        cfg_po = cfg + PRETTY_OPT_QUICK
+        cfg_all = [("flat", False, "allkinds")] + [c for c in all_cfg() if c[1]]      # every option kind in pretty mode as well
     else:
         cfg = QUICK_CFG
-        cfg_po = QUICK_CFG + PRETTY_OPT_QUICK
+        cfg_po = cfg_all = QUICK_CFG + PRETTY_OPT_QUICK
 
     def add(key, tys, title=None, configs=None, **kw):
         P.append(type_program(key, title, tys, configs or cfg, **kw))
@@ -615,9 +616,9 @@ def type_programs(tier):
     add("s_unit_like", [st("Unit", "unit"), st("Tup0", "tuple"), st("Brc0", "named")])
     # ---- tuple structs 1..3 (the representative carries the contract wrapper and the negative control)
     add("s_tuple", [st("T1", "tuple", [O()]), st("T2", "tuple", [O(), O()]), st("T3", "tuple", [O(), O(), O()])],
-        configs=cfg_po, control=True)
+        configs=cfg_all, control=True)
     add("s_named", [st("N1", "named", [O("a")]), st("N2", "named", [O("a"), O("b")]), st("N3", "named", [O("a"), O("b"), O("c")])],
-        configs=cfg_po if tier == "thorough" else QUICK_CFG + [("pretty_width", True, "width")])
+        configs=cfg_all if tier == "thorough" else QUICK_CFG + [("pretty_width", True, "width")])
     # ---- multi-line and symbolic-byte field values
     add("s_tuple_nl", [st("TN", "tuple", [Fd(None, "NL"), O()])])
     add("s_named_nl", [st("NN", "named", [O("a"), Fd("b", "NL")])])
@@ -753,6 +754,11 @@ def family(tier, seed):
     only = os.environ.get("C06_ONLY")          # development aid: restrict to programs whose key starts with one of the prefixes
     if only:
         progs = [p for p in progs if any(p.key.startswith(x) for x in only.split(","))]
+    skip = os.environ.get("C06_SKIP")          # development aid: drop the obligations `program/harness,...` (e.g. the open known findings)
+    if skip:
+        drop = set(skip.split(","))
+        for p in progs:
+            p.harnesses = [h for h in p.harnesses if "%s/%s" % (p.key, h.name) not in drop]
     n_b = sum(len(p.harnesses) for p in progs if p.key.startswith("bt_"))
     return Family(
         "C06", progs, common_src=COMMON,
